@@ -362,7 +362,7 @@ pub fn fuzz_entry(data: &[u8]) -> Result<(), String> {
             6 => Op::Cas { k, expect: [Expect::Current, Expect::Stale, Expect::Random(3)][u.int_in_range(0usize..=2).unwrap_or(0)], v, ts, ttl: u.arbitrary::<bool>().unwrap_or(false).then_some(ttl_s) },
             7 => Op::Incr { k, delta: [1i64, -1, i64::MAX, i64::MIN, 7][u.int_in_range(0usize..=4).unwrap_or(0)], ts, ttl: u.arbitrary::<bool>().unwrap_or(false).then_some(ttl_s) },
             8 => Op::InsertIfAbsent { k, v },
-            9 => Op::JsonPatch { k, patch: [PatchKind::ReplaceN(5), PatchKind::AddField(1), PatchKind::RemoveField, PatchKind::FailingTest, PatchKind::Malformed, PatchKind::Grow(300)][u.int_in_range(0usize..=5).unwrap_or(0)], ts },
+            9 => Op::JsonPatch { k, patch: [PatchKind::ReplaceN(5), PatchKind::AddField(1), PatchKind::RemoveField, PatchKind::FailingTest, PatchKind::Malformed, PatchKind::Grow(300), PatchKind::Empty, PatchKind::AddSame, PatchKind::TestSame][u.int_in_range(0usize..=8).unwrap_or(0)], ts },
             10 => Op::UpdateTtl { k, ttl: ttl_s },
             11 => Op::Persist { k },
             12 => Op::GetTtl { k },
